@@ -17,7 +17,8 @@ META = {
                  "z3 refutes 'coefficient of eps^k of the step != coefficient of the exact flow' for k = 0, 1, 2",
     "explanation": "bounded SMT check: start state and polynomial model coefficients symbolic; eps a formal variable",
     "bounds": {"quick": {"dim": 1, "series_order": 3}, "thorough": {"dim": "1-2", "series_order": 3}},
-    "outside": "constrained integrator (its Newton projection needs Laurent series in eps), dim > 2, non-polynomial targets, "
+    "outside": "constrained integrator (its Newton projection needs Laurent series in eps), implicit integrators on position-dependent "
+               "(Riemannian) metrics (normal forms did not finish in 1500 s per case), dim > 2, non-polynomial targets, "
                "global error accumulation (a textbook consequence of local order + stability)",
     "stubs": ["LAPACK stubs", "LOG/SIN/COS/SQRT uninterpreted with Taylor rules in the series domain"],
     "assumptions": ["metric positive at the expansion point", "denominators recorded during execution are non-zero"],
@@ -32,6 +33,11 @@ def run_group(rec, probs):
     for pname, kw in probs:
         key = "/".join(f"{k}={v}" for k, v in sorted(kw.items()))
         run_problem(rec, PROBS[pname], kw, key_prefix=f"{pname}/{key}:", timeout_ms=60000, max_paths=100)
+
+
+# implicit integrators on position-dependent metrics: the eps-series coefficients of the fixed-point iterates are rational
+# functions whose normal forms did not finish within 1500 s per case (10 cases tried); outside the claim until they do
+RIEMANNIAN_IMPLICIT = []  # [("scalar", 1, "diag"), ("diagonal", 1, "diag"), ("scalar", 2, "diag"), ("cholesky", 1, "diag"), ("dense", 1, "diag")]
 
 
 def cases(tier):
@@ -51,7 +57,7 @@ def cases(tier):
             G(f"order2/{ik}/{kind}/{dim}/{mkind}", "order2", {"ikind": ik, "kind": kind, "dim": dim, "mkind": mkind})
     # (the Steffensen solver needs np.finfo of the iterate's dtype and cannot run on symbolic series: not covered)
     for ik in ("implicit_leapfrog", "implicit_midpoint"):
-        for kind, dim, mkind in [("euclid", 1, "diag"), ("gauss", 1, "diag")] + ([("scalar", 1, "diag"), ("diagonal", 1, "diag"), ("scalar", 2, "diag"), ("cholesky", 1, "diag"), ("dense", 1, "diag")] if th else []):
+        for kind, dim, mkind in [("euclid", 1, "diag"), ("gauss", 1, "diag")] + RIEMANNIAN_IMPLICIT * th:
             if ik.endswith("steffensen") and kind != "euclid":
                 continue
             G(f"order2/{ik}/{kind}/{dim}", "order2", {"ikind": ik, "kind": kind, "dim": dim, "mkind": mkind})
